@@ -405,7 +405,7 @@ func runC11(c *hx.Ctx) error {
 			nShapes++
 		}
 	}
-	res.Rule = fmt.Sprintf("%d hand-written kinds (30 callback shapes, 48 nested shapes, 31 flat ones; see the kinds table) run 12 (thorough 160) times each with a random constant and context ending, and %d composed shapes of the non-terminating / blocking family, each run once (thorough 8 times), the shapes of a family taking the three cancel moments in turn: before Run, during the run (0-20 ms), deadline. Families: loop = 23 ways of running a piece of code for ever (for / for cond / for clause / goto loop / one range over 2^40 zero-sized elements with and without variables / range over a fed channel / recursion: tail, non-tail, guarded by a true or a false condition, through a closure variable, mutual, a 2^40 call tree of distinct functions, a call tree through native callbacks, a chain of deferred calls, a native function calling back for ever / in a goroutine, in a goroutine by recursion, in a range body, in a deferred function, nested three deep, nested huge ranges) x 34 pieces of code (one statement of every kind); tpl-loop = 12 template forms (for, range and for-in over the huge slice, macro recursion plain and guarded, macro call tree, function-value recursion, loop in a macro, goroutine, nested ranges) x 21 template pieces, and 2^40 trees of {{ render }} over 41 files; select = 12 earlier select statements (none, default only, default first / last / in the middle, receive and send cases ready or not, nil channel, in a loop) x 9 constructs that block or spin (select {}, select with only blocked cases, receive, send, range over a channel, tight loop) x 10 placements (same function, callee, caller, closures, goroutine, range body, after a range body, deferred, native callback either way); tpl-select = 9 x 8 x 5 in templates; pair = 8 x 8 (what main does x what a goroutine does). Oracle: Run returns the context's error within %d ms of the context's end (a run that does not is run a second time before it counts), no host panic, goroutines end; a shape that ends on its own before the cancellation (observed by a run with a late cancellation) is judged as terminating code. Non-trivial: non-terminating code whose context ends, or terminating code with a context; distinct by kind+constant+context+delay", len(kinds)-nShapes, nShapes, boundMs)
+	res.Rule = fmt.Sprintf("%d hand-written kinds (30 callback shapes, 48 nested shapes, 31 flat ones; see the kinds table) run 12 (thorough 160) times each with a random constant and context ending, and %d composed shapes of the non-terminating / blocking family, each run once (thorough 8 times), the shapes of a family taking the three cancel moments in turn: before Run, during the run (0-20 ms), deadline. Families: loop = 23 ways of running a piece of code for ever (for / for cond / for clause / goto loop / one range over 2^40 zero-sized elements with and without variables / range over a fed channel / recursion: tail, non-tail, guarded by a true or a false condition, through a closure variable, mutual, a 2^40 call tree of distinct functions, a call tree through native callbacks, a chain of deferred calls, a native function calling back for ever / in a goroutine, in a goroutine by recursion, in a range body, in a deferred function, nested three deep, nested huge ranges) x 34 pieces of code (one statement of every kind); tpl-loop = 12 template forms (for, range and for-in over the huge slice, macro recursion plain and guarded, macro call tree, function-value recursion, loop in a macro, goroutine, nested ranges) x 21 template pieces, and 2^40 trees of {{ render }} over 41 files; select = 12 earlier select statements (none, default only, default first / last / in the middle, receive and send cases ready or not, nil channel, in a loop) x 9 constructs that block or spin (select {}, select with only blocked cases, receive, send, range over a channel, tight loop) x 10 placements (same function, callee, caller, closures, goroutine, range body, after a range body, deferred, native callback either way); tpl-select = 9 x 8 x 5 in templates; pair = 8 x 8 (what main does x what a goroutine does). Then the contended family (contended.go): 360 programs and templates whose goroutines compete for one buffered channel (capacity 1/2/4 x 1-3 sending goroutines, by send or select x 1-2 receiving goroutines, by receive or range x main sending / select-sending / ranging / receiving), a twelfth of them per quick run x 60 trials (thorough: all x 150), each trial cancelled 0.2-3 ms after Run was called on at least 4 CPUs; every trial must return context.Canceled and no goroutine may be left. Oracle: Run returns the context's error within %d ms of the context's end (a run that does not is run a second time before it counts), no host panic, goroutines end; a shape that ends on its own before the cancellation (observed by a run with a late cancellation) is judged as terminating code. Non-trivial: non-terminating code whose context ends, or terminating code with a context; distinct by kind+constant+context+delay", len(kinds)-nShapes, nShapes, boundMs)
 	if c.Replay != "" {
 		return replayC11(c)
 	}
@@ -721,7 +721,8 @@ func runC11(c *hx.Ctx) error {
 			res.AddBreak(proto.Break{Kind: "property", Name: "goroutines-outlive-cancelled-runs", Case: "C11 all", Impl: fmt.Sprintf("%d goroutines still alive 5 s after the last run returned (baseline %d)", n, baseline), Model: "goroutines started by a cancelled run stop as well"})
 		}
 	}
-	return nil
+	// the contended family (its own trial loop: nothing in it is deterministic)
+	return contendedStream(c)
 }
 
 func replayC11(c *hx.Ctx) error {
@@ -737,6 +738,9 @@ func replayC11(c *hx.Ctx) error {
 	}
 	if err := json.Unmarshal(data, &rp); err != nil {
 		return err
+	}
+	if js, ok := strings.CutPrefix(rp.Case, "C11 contended "); ok {
+		return replayContended(c, js)
 	}
 	js, ok := strings.CutPrefix(rp.Case, "C11 case ")
 	if !ok {
